@@ -4,7 +4,8 @@
    [deps_cover g] is the assumption on the linker's input named in the config:
    a symbol used or exported across files is backed by a part dependency. *)
 From V Require Import Common.Base C10.BitSet C10.Renamer C10.Split
-  C10.BitSetProofs C10.RenamerProofs C10.ListLemmas C10.SplitProofs C10.OrderProofs.
+  C10.BitSetProofs C10.RenamerProofs C10.ListLemmas C10.SplitProofs C10.OrderProofs C10.CrossProofs
+  C10.Eval C10.EvalProofs.
 From Coq Require Import Relations.
 
 (* helpers.BitSet: HasBit after SetBit, every bit set of every size *)
@@ -109,11 +110,101 @@ Theorem minified_name_injective : forall i j, minified_name i = minified_name j 
 Proof. exact minified_name_inj. Qed.
 Print Assumptions minified_name_injective.
 
-(* no chunk imports from an entry chunk (entry chunks export only the entry's own
-   exports); partial: the importing chunk's entry-point set is assumed non-empty *)
-Theorem entry_chunk_no_importers_partial : forall g r i j bit e, split g = Some r -> deps_cover g ->
+(* every live file is reached by some entry point, so no chunk has an empty entry-point set *)
+Theorem live_file_reached_by_some_entry : forall g a f, analyse g = Some a -> is_live a f = true ->
+  exists j, (j < length (a_entries a))%nat /\ HasBit (file_bits a f) j = true.
+Proof. exact live_has_bit. Qed.
+Print Assumptions live_file_reached_by_some_entry.
+
+(* no chunk imports from an entry chunk: entry chunks export only the entry point's own
+   exports (full statement; supersedes entry_chunk_no_importers_partial) *)
+Theorem entry_chunk_no_importers : forall g r i j bit e, split g = Some r -> deps_cover g ->
   let a := r_analysis r in
-  sedge (r_cross r) i j -> c_entry (nth j (a_chunks a) dchunk) = Some (bit, e) ->
-  (exists b, (b < length (a_entries a))%nat /\ HasBit (c_bits (nth i (a_chunks a) dchunk)) b = true) -> False.
-Proof. exact entry_chunk_no_importers_partial_all. Qed.
-Print Assumptions entry_chunk_no_importers_partial.
+  sedge (r_cross r) i j -> c_entry (nth j (a_chunks a) dchunk) = Some (bit, e) -> False.
+Proof. exact entry_chunk_no_importers_all. Qed.
+Print Assumptions entry_chunk_no_importers.
+
+(* what the code of a chunk references (chunkMeta.imports of computeCrossChunkDependencies):
+   the SymbolUses of the live parts of its files, each followed through the ImportsToBind
+   table of the using file, plus, for an entry chunk, the entry point's export targets
+   followed through the table of the file that resolved the export *)
+Theorem chunk_uses_characterisation : forall g c s, In s (chunk_uses g c) <->
+  (exists f p u, In f (c_files c) /\ In p (f_parts (getf g f)) /\ p_live p = true /\ In u (p_uses p) /\
+                 s = resolve_in (getf g f) u) \/
+  (exists bit e, c_entry c = Some (bit, e) /\ In s (entry_exports g e)).
+Proof. exact chunk_uses_spec. Qed.
+Print Assumptions chunk_uses_characterisation.
+
+(* cross-chunk imports are exact: every symbol a chunk references is unbound (no top-level
+   declaration in a live part), declared in the chunk, or imported - under the alias the
+   exporting chunk gives it - from the one chunk that declares it; nothing else is imported;
+   there is one import statement per imported chunk *)
+Theorem cross_chunk_imports_exact : forall g r ci, split g = Some r ->
+  let a := r_analysis r in
+  (ci < length (a_chunks a))%nat ->
+  let c := nth ci (a_chunks a) dchunk in
+  let x := nth ci (r_cross r) dcross in
+  (forall s, In s (chunk_uses g c) ->
+     chunk_of_sym g a s = None \/ chunk_of_sym g a s = Some ci \/
+     exists oi im al, chunk_of_sym g a s = Some oi /\ oi <> ci /\ (oi < length (a_chunks a))%nat /\
+       In im (static_imports x) /\ i_chunk im = oi /\ In al (i_items im) /\
+       lookup_alias s (x_exports (nth oi (r_cross r) dcross)) = Some al) /\
+  (forall im al, In im (static_imports x) -> In al (i_items im) ->
+     exists s, In s (chunk_uses g c) /\ chunk_of_sym g a s = Some (i_chunk im) /\
+       lookup_alias s (x_exports (nth (i_chunk im) (r_cross r) dcross)) = Some al) /\
+  NoDup (map i_chunk (static_imports x)).
+Proof. exact cross_chunk_imports_exact_all. Qed.
+Print Assumptions cross_chunk_imports_exact.
+
+(* ---- evaluation order ----
+   Full claim (FALSE, see the refutation below): loading an entry point evaluates the module
+   bodies in the same relative order as ESM evaluation of the sources,
+     forall g r ci bit e f1 f2, split g = Some r -> c_entry (nth ci chunks) = Some (bit, e) ->
+       before f1 f2 (native_order g e) -> In f1 (split_order r ci) -> In f2 (split_order r ci) ->
+       before f1 f2 (split_order r ci).
+   What holds: chunks are evaluated after the chunks they import; a chunk that declares a
+   binding is evaluated before every chunk whose code uses it; inside a chunk a file comes
+   after the files of the chunk it imports. *)
+Theorem chunk_order_respects_evaluation_refuted :
+  exists g r ci bit e f1 f2, split g = Some r /\ deps_cover g /\
+    nth_error (map c_entry (a_chunks (r_analysis r))) ci = Some (Some (bit, e)) /\
+    beforeb f1 f2 (native_order g e) = true /\ beforeb f2 f1 (split_order r ci) = true.
+Proof. exact chunk_order_respects_evaluation_refuted_all. Qed.
+Print Assumptions chunk_order_respects_evaluation_refuted.
+
+Theorem chunk_eval_respects_imports : forall g r ci, split g = Some r -> deps_cover g ->
+  (ci < length (a_chunks (r_analysis r)))%nat ->
+  let out := chunk_eval_order r ci in
+  In ci out /\ forall A B, In A out -> sedge (r_cross r) A B -> In B out /\ before B A out.
+Proof. exact chunk_eval_respects_imports_lemma. Qed.
+Print Assumptions chunk_eval_respects_imports.
+
+Theorem binding_chunk_evaluated_first : forall g r ci A B s, split g = Some r -> deps_cover g ->
+  let a := r_analysis r in
+  (ci < length (a_chunks a))%nat -> In A (chunk_eval_order r ci) ->
+  (A < length (a_chunks a))%nat ->
+  In s (chunk_uses g (nth A (a_chunks a) dchunk)) -> chunk_of_sym g a s = Some B -> B <> A ->
+  In B (chunk_eval_order r ci) /\ before B A (chunk_eval_order r ci).
+Proof. exact binding_chunk_evaluated_first_all. Qed.
+Print Assumptions binding_chunk_evaluated_first.
+
+Theorem binding_file_evaluated_first : forall g r ci A B s f f', split g = Some r -> deps_cover g ->
+  let a := r_analysis r in
+  (ci < length (a_chunks a))%nat -> In A (chunk_eval_order r ci) ->
+  (A < length (a_chunks a))%nat ->
+  In s (chunk_uses g (nth A (a_chunks a) dchunk)) -> chunk_of_sym g a s = Some B -> B <> A ->
+  In f (nth B (r_orders r) []) -> In f' (nth A (r_orders r) []) ->
+  before f f' (split_order r ci).
+Proof. exact binding_file_evaluated_first_all. Qed.
+Print Assumptions binding_file_evaluated_first.
+
+(* findImportedPartsInJSOrder: inside a chunk a file is emitted after the files of the chunk
+   it imports (acyclic walked import graph, import records point at existing files) *)
+Theorem chunk_order_respects_imports : forall g a c f f',
+  (forall x, ~ clos_trans nat (E (osucc g a c)) x x) ->
+  (forall x y, In y (osucc g a c x) -> (y < nfiles g)%nat) ->
+  (forall x, In x (c_files c) -> (x < nfiles g)%nat) -> (0 < nfiles g)%nat ->
+  In f (chunk_order g a c) -> In f' (osucc g a c f) -> in_chunk a c f' = true ->
+  In f' (chunk_order g a c) /\ before f' f (chunk_order g a c).
+Proof. exact chunk_order_respects_imports_all. Qed.
+Print Assumptions chunk_order_respects_imports.
